@@ -757,7 +757,12 @@ func (in *Interp) doCall(fr *frame, ins *ssa.Call, st *State, kv func(*State, Va
 
 	name := callee.String()
 	if len(callee.Blocks) > 0 && fr.depth < in.MaxDepth && (in.Inline == nil || in.Inline(callee)) {
+		st.Stack = append(st.Stack[:len(st.Stack):len(st.Stack)], ins.Pos())
+		depthAtCall := len(st.Stack)
 		in.call(callee, bindings, args, st, fr.depth+1, func(o Outcome) {
+			if o.St != nil && len(o.St.Stack) >= depthAtCall {
+				o.St.Stack = o.St.Stack[:depthAtCall-1]
+			}
 			if o.Panic || o.Abort {
 				k(o)
 				return
